@@ -3,6 +3,7 @@
 use crate::eng::{self, Game, Move, MoveBuf};
 use crate::ev::*;
 use crate::gen::*;
+use crate::refchess::Pos;
 use crate::runner::{Ctx, Prop};
 use crate::srch;
 use proptest::prelude::*;
@@ -18,11 +19,17 @@ pub struct TreeCase {
     pub depth: u8,
     /// pre-filled history table: (index, value) pairs; empty = fresh
     pub history: Vec<(u16, u16)>,
+    /// compare at EVERY position along the walk, at depth 1 and 2 alternately (cheap trees in large numbers: an
+    /// error of the capture search or of the depth-1 layer shows at any depth, but only for rare geometries)
+    #[serde(default)]
+    pub along: bool,
 }
 
 pub struct C09;
 
 pub const NODE_BUDGET: u64 = 700_000;
+/// budget for the many shallow trees along a walk
+pub const SHALLOW_BUDGET: u64 = 25_000;
 
 /// Exhaustive, unordered, unpruned negamax on the engine's own generator and score with the same
 /// leaf rules as the optimised search.
@@ -34,12 +41,14 @@ pub struct Reference {
     /// terminal nodes met: [interior mate, interior stalemate, depth-1 layer mate, depth-1 layer stalemate, quiescence king-less]
     pub terminals: [u64; 5],
     pub max_q_ply: u8,
+    /// node budget of this walk (trees above it are skipped and counted)
+    pub budget: u64,
 }
 
 impl Reference {
     fn q(&mut self, g: &mut Game, rd: u8) -> i32 {
         self.nodes += 1;
-        if self.nodes > NODE_BUDGET {
+        if self.nodes > self.budget {
             return 0;
         }
         let stand_pat = g.score() as i32 * (g.player() as i32);
@@ -106,7 +115,7 @@ impl Reference {
             return self.q(g, rd);
         }
         self.nodes += 1;
-        if self.nodes > NODE_BUDGET {
+        if self.nodes > self.budget {
             return 0;
         }
         let player = g.player();
@@ -172,7 +181,7 @@ impl Prop for C09 {
     }
 
     fn rule(&self) -> String {
-        "Cases: the end position of a generated walk (capture-biased picks so that quiescence matters; curated endgames included) imported from text, depth 1-4 (5-6 for positions with at most six men), history table fresh or pre-filled with generated values. With the node-entry hook emptying the transposition table at every node, get_best_move_entry(..).score must equal an exhaustive negamax written in the harness on the engine's own move generator and score with the same leaf rules (interior: checked list, mate = MIN+100+ply, stalemate 0; depth-1 layer: unchecked list, MIN+2000+ply; quiescence: stand-pat, tactical moves of the unchecked list, MIN+3000+ply when nothing is generated), both clamped to ±15000; and the score with a pre-filled history table must equal the score with a fresh one. Roots with fewer than two legal moves (single-reply shortcut), trees containing a quiescence node with a king but no generated move, and reference trees above 700 000 nodes are skipped and counted. evaluations = trees compared. Non-trivial tree: depth >= 2 and at least one tactical move searched in quiescence; distinct by (position, depth).".into()
+        "Cases: (a) every position along a generated walk at depth 1 and 2 alternately (5 cases in 11: cheap trees in large numbers, about 10^5 in the quick tier, for the rare capture geometries in which an unsound pruning rule of the capture search or the depth-1 layer would show); (b) the end position of a generated walk (capture-biased picks so that quiescence matters; curated endgames included) imported from text, depth 1-4 (5-6 for positions with at most six men), history table fresh or pre-filled with generated values. With the node-entry hook emptying the transposition table at every node, get_best_move_entry(..).score must equal an exhaustive negamax written in the harness on the engine's own move generator and score with the same leaf rules (interior: checked list, mate = MIN+100+ply, stalemate 0; depth-1 layer: unchecked list, MIN+2000+ply; quiescence: stand-pat, tactical moves of the unchecked list, MIN+3000+ply when nothing is generated), both clamped to ±15000; and the score with a pre-filled history table must equal the score with a fresh one. Roots with fewer than two legal moves (single-reply shortcut), trees containing a quiescence node with a king but no generated move, and reference trees above 700 000 nodes (25 000 for the shallow trees of (a)) are skipped and counted. evaluations = trees compared. Non-trivial tree: depth >= 2 and at least one tactical move searched in quiescence; distinct by (position, depth).".into()
     }
 
     fn assumptions(&self) -> Vec<String> {
@@ -183,7 +192,7 @@ impl Prop for C09 {
     }
 
     fn cases(&self, tier: Tier) -> u32 {
-        tier.pick(6_000, 120_000)
+        tier.pick(11_000, 220_000)
     }
 
     fn shard_timeout_s(&self, tier: Tier) -> u64 {
@@ -193,7 +202,11 @@ impl Prop for C09 {
     fn strategy(&self, _ctx: &Ctx) -> BoxedStrategy<TreeCase> {
         let depth = prop_oneof![1 => Just(1u8), 3 => Just(2u8), 3 => Just(3u8), 2 => Just(4u8), 1 => Just(5u8), 1 => Just(6u8)];
         let hist = prop_oneof![1 => Just(Vec::new()), 1 => proptest::collection::vec((0u16..768, 0u16..9500), 1..200)];
-        (walk_strategy(false), depth, hist).prop_map(|(walk, depth, history)| TreeCase { walk, depth, history }).boxed()
+        prop_oneof![
+            6 => (walk_strategy(false), depth, hist).prop_map(|(walk, depth, history)| TreeCase { walk, depth, history, along: false }),
+            5 => (walk_strategy(false), 0u8..2).prop_map(|(walk, depth)| TreeCase { walk, depth, history: Vec::new(), along: true }),
+        ]
+        .boxed()
     }
 
     fn check(&self, _ctx: &Ctx, case: &TreeCase, ev: &mut Ev) -> Result<(), Fail> {
@@ -201,7 +214,21 @@ impl Prop for C09 {
             ev.skip("construction did not yield a sane position");
             return Ok(());
         };
-        let p = &r.end;
+        if case.along {
+            let mut p = r.start.clone();
+            for (i, m) in r.moves.iter().enumerate() {
+                p = p.make(*m);
+                ev.class("shallow_trees_along_a_walk");
+                self.compare(&p, 1 + (i as u8 + case.depth) % 2, &[], SHALLOW_BUDGET, ev)?;
+            }
+            return Ok(());
+        }
+        self.compare(&r.end, case.depth, &case.history, NODE_BUDGET, ev)
+    }
+}
+
+impl C09 {
+    fn compare(&self, p: &Pos, case_depth: u8, case_history: &[(u16, u16)], budget: u64, ev: &mut Ev) -> Result<(), Fail> {
         if p.legal().len() < 2 {
             ev.skip("root has fewer than two legal moves (single-reply shortcut returns 0 by design)");
             return Ok(());
@@ -213,14 +240,14 @@ impl Prop for C09 {
         let fen = p.fen6();
         let g = Game::new(&fen).map_err(|e| Fail::new("sane-position-not-importable", e.to_string()))?;
         // depth 5 and 6 only where the exhaustive reference is still feasible: at most six men
-        let depth = if p.men() <= 6 { case.depth.clamp(1, 6) } else { case.depth.clamp(1, 4) };
-        let mut rf = Reference { nodes: 0, weird: false, q_captures: 0, terminals: [0; 5], max_q_ply: 0 };
+        let depth = if p.men() <= 6 { case_depth.clamp(1, 6) } else { case_depth.clamp(1, 4) };
+        let mut rf = Reference { nodes: 0, weird: false, q_captures: 0, terminals: [0; 5], max_q_ply: 0, budget };
         let mut gc = g.clone();
         let want = match eng::guarded(|| rf.root(&mut gc, depth)) {
             Ok(v) => v,
             Err(p) => return Err(Fail::new("panic", format!("reference walk of {} : {}", fen, p))),
         };
-        if rf.nodes > NODE_BUDGET {
+        if rf.nodes > rf.budget {
             ev.skip("reference tree above the node budget");
             return Ok(());
         }
@@ -252,9 +279,9 @@ impl Prop for C09 {
                 format!("{} depth {} : engine (table off) {} , exhaustive reference {}", fen, depth, got, want),
             ));
         }
-        if !case.history.is_empty() {
+        if !case_history.is_empty() {
             let mut h = [0u16; 768];
-            for &(i, v) in &case.history {
+            for &(i, v) in case_history {
                 h[i as usize % 768] = v;
             }
             let (_, got2) = engine_score(&g, depth, &mut h)?;
